@@ -11,10 +11,10 @@ const ITEMS: [&[u8]; 4] = [&[], &[1], &[2, 3, 4], &[255, 0]];
 // ---------------------------------------------------------------------------------------------------- C03 FlatStack as a sequence
 // args: container kind (0 Vec, 1 IndexOptimized over CIP, 2 IndexList over CIP), k0..k3 (items), n (0..4), how (0 copy, 1 extend, 2 from_iter), probe
 fn pre_fs(v: &[u64]) -> bool {
-    v[0] < 3 && all_le(v, 1, 5, 3) && v[5] <= 4 && v[6] < 3
+    v[0] < 3 && all_le(v, 1, 5, 3) && v[5] <= 4 && v[6] < 5
 }
 fn doms_fs() -> Vec<Vec<u64>> {
-    vec![range(3), range(4), range(4), vec![2, 0], vec![1], range(5), range(3), vec![0, 1, 3, 4, 5, u64::MAX]]
+    vec![range(3), range(4), range(4), vec![2, 0], vec![1], range(5), range(5), vec![0, 1, 3, 4, 5, u64::MAX]]
 }
 macro_rules! fs_body {
     ($R:ty, $S:ty, $v:expr, $eq:expr) => {{
@@ -36,7 +36,16 @@ macro_rules! fs_body {
                 fs.extend(want.as_slice().iter().copied());
                 fs
             }
-            _ => want.as_slice().iter().copied().collect(),
+            2 => want.as_slice().iter().copied().collect(),
+            3 => {
+                // iterators whose size_hint lower bound is inexact (filter) or mixed (exact prefix chained with a filter)
+                let mut fs = <FlatStack<$R, $S>>::default();
+                let half = want.len() / 2;
+                fs.extend(want.as_slice()[..half].iter().copied().filter(|_| true));
+                fs.extend(want.as_slice()[half..].iter().copied().take(1).chain(want.as_slice()[half..].iter().copied().skip(1).filter(|_| true)));
+                fs
+            }
+            _ => want.as_slice().iter().copied().filter(|_| true).collect(),
         };
         let same = |fs: &FlatStack<$R, $S>| {
             vassert!(fs.len() == want.len() && fs.is_empty() == want.is_empty(), "VF:flatstack.len");
@@ -352,7 +361,7 @@ fn run_cmp(v: &[u64]) {
 pub fn harnesses() -> Vec<H> {
     vec![
         H { name: "flatstack_sequence", props: &["C03"], nargs: 8, pre: pre_fs, doms: doms_fs, run: run_fs, panic_ok: false,
-            bound: "FlatStack over SliceRegion<MirrorRegion<u8>>/Vec, ConsecutiveIndexPairs<OwnedRegion<u8>>/IndexOptimized and /IndexList: 0..4 items from a 4-value pool built by copy / extend / from_iter; get, iter, cloned iterator, size_hint, into_iter, reserve, clone, clear; out-of-bounds probe", kani: false },
+            bound: "FlatStack over SliceRegion<MirrorRegion<u8>>/Vec, ConsecutiveIndexPairs<OwnedRegion<u8>>/IndexOptimized and /IndexList: 0..4 items from a 4-value pool built by copy / extend / from_iter (exact-size, filtered and chained iterators); get, iter, cloned iterator, size_hint, into_iter, reserve, clone, clear; out-of-bounds probe", kani: false },
         H { name: "index_containers", props: &["C05", "C19", "C08", "C10", "C18", "C01", "C02", "C03"], nargs: 7, pre: pre_ix, doms: doms_ix, run: run_ix, panic_ok: false,
             bound: "IndexOptimized, IndexList<Vec<u32>,Vec<u64>>, Vec<usize>: all sequences of length 0..4 over the 12-value transition alphabet {0,1,2,3,4,5,6,8,u32::MAX,u32::MAX+1,2^63,usize::MAX} by push or extend; index/len/iter/clone/reserve/clear/with_capacity; heap bytes equal the documented cost rule", kani: false },
         H { name: "dense_indices_free", props: &["C19"], nargs: 3, pre: pre_dense, doms: doms_dense, run: run_dense, panic_ok: false,
